@@ -104,6 +104,8 @@ def run_request(req, folder, cleanup=False):
             kw["output_names"] = set(req["output_names"])
         if req.get("fixed") is not None:
             kw["fixed_indices"] = py_fixed(req["fixed"])
+        if req.get("auto"):
+            kw["auto_subpipeline"] = True
         mapgen.quiet(p.map, py_inputs(req["desc"]), run_folder=folder, internal_shapes=mapgen.internal_shapes_arg(req["desc"]),
                      parallel=bool(req.get("parallel", False)), storage=py_storage(req["storage"]), cleanup=cleanup, **kw)
     except Exception as e:  # noqa: BLE001
